@@ -91,6 +91,7 @@ type pathState struct {
 	trackPoss bool
 	possDiff  bool
 	syncMaps  map[*value]*omap
+	pools     map[*value][]value // sync.Pool contents (LIFO)
 	ufCalls   []ufCall
 	// obligations
 	oblChecked    int // assertion / safety sites whose bad side was queried
